@@ -164,6 +164,14 @@ function export.parent(frame)
   return "<<" .. q(p:getTitle()) .. "|" .. dump(p.args) .. ">>"
 end
 function export.title(frame) return "<<" .. q(frame:getTitle()) .. ">>" end
+function export.mutparent(frame)
+  -- "normalise the arguments in place": writes into the parent frame's argument table (its own copy of it)
+  local p = frame:getParent()
+  if p ~= nil then
+    local ok = pcall(function() p.args[1] = "MUT" p.args.extra = "added" p.args.k = "KK" end)
+  end
+  return ""
+end
 function export.pre_parent(frame) return frame:preprocess("{{#invoke:echo|parent}}") end
 function export.first_arg(frame) return frame.args[1] end
 function export.et_parent(frame) return frame:expandTemplate{title = "w1", args = {frame:getParent().args[1], "k"}} end
@@ -590,6 +598,9 @@ C08_TEMPLATES = {
     "s": "[{{{1}}}|{{{2|}}}|{{{k|}}}]",
     "sp": " y ",
     "w1": "{{#invoke:echo|parent}}",
+    # two invocations in one expansion of the template: the first writes into its parent frame's arguments, the second must
+    # still see the template's own arguments (used for half of the parent cases under the name w1)
+    "w1mut": "{{#invoke:echo|mutparent}}{{#invoke:echo|parent}}",
     "w1args": "{{#invoke:echo|main|{{{1|}}}|k={{{k|}}}}}",
     "w2": "({{w1|{{{1|}}}|z={{{z|}}}}})",
     # a template whose module calls the same template again, with other arguments, while it is still running
@@ -645,6 +656,11 @@ def impl_c08(case, scratch):
     elif kind == "parent":
         src = "".join("|" + a for a in case["args"])
         call = "{{" + case["wrapper"] + src + "}}"
+        if case.get("mutate_first"):
+            # Template:w1 of this context is, for this case, the variant whose first invocation mutates its parent frame
+            ctx.add_page("Template:w1", 10, C08_TEMPLATES["w1mut"])
+        else:
+            ctx.add_page("Template:w1", 10, C08_TEMPLATES["w1"])
         out = ex(call)
         res["raw"] = out
         m = out[out.find("<<") + 2:out.rfind(">>")] if "<<" in out else None
